@@ -108,8 +108,14 @@ impl SwiftField for Field58D {
         // Party identifier can be on its own line (starting with /)
         // If first line is short and there are more lines, it's likely a party identifier
         if let Some(first_line) = lines.first() {
-            // Party identifier should start with / and be short (≤35 chars to account for the /)
-            if first_line.starts_with('/') && first_line.len() <= 35 && lines.len() > 1 {
+            // Party identifier: [/1!a][/34x], i.e. "/" + 34x (35 chars) or "/D/" + 34x (37 chars)
+            let b = first_line.as_bytes();
+            let max_len = if b.len() > 2 && b[1].is_ascii_alphabetic() && b[2] == b'/' {
+                37
+            } else {
+                35
+            };
+            if first_line.starts_with('/') && first_line.len() <= max_len && lines.len() > 1 {
                 // Entire first line is party identifier (strip the leading / format prefix)
                 party_identifier = Some(first_line[1..].to_string());
                 lines.remove(0);
